@@ -32,10 +32,17 @@ package keeper
 // (ghost counter `staked`: the sum of all single-staker allocations, per denomination) plus what goes to the
 // community pool (truncation dust, or everything when nobody has power) equals rewardToAllStakers. (The lookup of
 // the operator's AVS list fails only on a malformed store key; on that path, and only there, nothing is booked.)
+// A single staker's allocation is booked completely - also an amount below one base unit: the stored reward grows by
+// exactly the reward handed in (that is what the ghost counter `staked` counts).
 //@ func (Keeper).AllocateTokensToSingleStaker
-//@   flag assumed
+//@   flag pure=Logger,Debug,Info
+//@   flag havoc=SetStakerRewards
+//@   flag noframe
 //@   modifies state(ctx)
 //@   bumps staked by dcv(reward)
+//@   before[C17.atss.booked] SetStakerRewards requires arg_stakerAddress == stakerAddress &&
+//@        dcv(arg_rewards.Rewards) == dcv(res_GetStakerRewards_0.Rewards) + dcv(reward)
+//@   ensures[C17.atss.always] defined(res_SetStakerRewards_0)
 
 //@ func (Keeper).AllocateTokensToStakers
 //@   requires feePool != nil
@@ -84,6 +91,9 @@ package keeper
 //@   flag pure=GetValidatorAccumulatedCommissionKey
 //@   flag noframe
 //@   before[C17.svac.key] KVStore.Set requires defined(res_GetValidatorAccumulatedCommissionKey_0) && arg0 == res_GetValidatorAccumulatedCommissionKey_0
+// ... and what is stored is the commission handed in - any amount that is not zero, also one below one base unit.
+//@   ensures[C17.svac.kept] dcv(commission.Commission) != 0 ==> defined(res_MustMarshal_0) &&
+//@        dcv(unm["x/feedistribution/types.ValidatorAccumulatedCommission"](res_MustMarshal_0).Commission) == dcv(commission.Commission)
 
 // C17 (everything collected in an epoch is distributed at its end, whatever the voting power was): at the end of every
 // epoch of the module's identifier the allocation runs, with the previous total power as read from the staking keeper
